@@ -4,16 +4,33 @@ use turdb::storage::Storage;
 
 pub const PAGE: usize = 16384;
 
+/// 16-byte aligned page (zerocopy views over page bytes need the alignment mmap'd pages have)
+#[derive(Clone)]
+#[repr(align(16))]
+pub struct Page(pub [u8; PAGE]);
+
+impl std::ops::Deref for Page {
+    type Target = [u8; PAGE];
+    fn deref(&self) -> &[u8; PAGE] {
+        &self.0
+    }
+}
+impl std::ops::DerefMut for Page {
+    fn deref_mut(&mut self) -> &mut [u8; PAGE] {
+        &mut self.0
+    }
+}
+
 #[derive(Clone)]
 pub struct MemStore {
-    pub pages: Vec<Box<[u8; PAGE]>>,
+    pub pages: Vec<Box<Page>>,
 }
 
 impl MemStore {
     pub fn new(n: u32) -> Self {
         let mut pages = Vec::new();
         for _ in 0..n {
-            pages.push(Box::new([0u8; PAGE]));
+            pages.push(Box::new(Page([0u8; PAGE])));
         }
         MemStore { pages }
     }
@@ -35,7 +52,7 @@ impl Storage for MemStore {
     }
     fn grow(&mut self, new_page_count: u32) -> Result<()> {
         while (self.pages.len() as u32) < new_page_count {
-            self.pages.push(Box::new([0u8; PAGE]));
+            self.pages.push(Box::new(Page([0u8; PAGE])));
         }
         Ok(())
     }
